@@ -34,11 +34,13 @@ Theorem Gen_globals_vars_covered : forallb (var_covered var_prots allow_list) ge
 Proof. exact globals_vars_covered. Qed.
 Print Assumptions Gen_globals_vars_covered.
 
-(* The only rows excused as known findings are the two rows of the unlocked read in IsNamespaceScoped. *)
+(* The only rows excused as known findings: the two rows of the unlocked read in IsNamespaceScoped, and the
+   store that clears schemaInit when a build names a built-in version. *)
 Theorem Gen_globals_findings_are_f9 :
   map (fun r => (a_fn r, a_var r)) (finding_rows var_prots allow_list gen_accesses)
   = [("IsNamespaceScoped", "kyaml/openapi.globalSchema.namespaceabilityByResourceType");
-     ("IsNamespaceScoped", "kyaml/openapi.globalSchema.namespaceabilityByResourceType[]")].
+     ("IsNamespaceScoped", "kyaml/openapi.globalSchema.namespaceabilityByResourceType[]");
+     ("SetSchema", "kyaml/openapi.globalSchema.schemaInit")].
 Proof. exact globals_findings_are_f9. Qed.
 Print Assumptions Gen_globals_findings_are_f9.
 
